@@ -346,13 +346,26 @@ specialise(
     "C17",
     "b.units.parameters",
     c17_params,
-    {"n": [1, 2, 3]},
+    {"n": [1, 2]},
     timeout=300,
     kernel=("pyxform.validators.pyxform.parameters_generic:parse", "pyxform.validators.pyxform.parameters_generic:validate"),
     shims=(),
     symbolic="parameters cell of n symbolic printable characters (U+0020-U+007E)",
-    bounds="n in 1..4",
+    bounds="n in 1..2 (quick), 3-4 (thorough)",
     weight=40,
+)
+specialise(
+    "C17",
+    "b.units.parameters",
+    c17_params,
+    {"n": [3, 4]},
+    tiers=("thorough",),
+    timeout=2400,
+    kernel=("pyxform.validators.pyxform.parameters_generic:parse", "pyxform.validators.pyxform.parameters_generic:validate"),
+    shims=(),
+    symbolic="parameters cell of n symbolic printable characters",
+    bounds="n in 3..4",
+    weight=900,
 )
 
 
